@@ -714,9 +714,23 @@ def check_against_read_itp(case, text, facts):
 
 def _run_main(case):
     mol, kwargs = build(case)
+
+    def snapshot():
+        return ([(key, sorted((k, repr(v)) for k, v in mol.nodes[key].items())) for key in mol.nodes],
+                sorted((name, [(tuple(i.atoms), [repr(p) for p in i.parameters], sorted((k, repr(v)) for k, v in i.meta.items()))
+                               for i in lst]) for name, lst in mol.interactions.items() if lst))
+    before = snapshot()
     out = io.StringIO()
     write_molecule_itp(mol, out, **kwargs)
     text = out.getvalue()
+    # writing states the molecule, it does not change it: the molecule is the same afterwards and a second write of the same
+    # object gives the same text (nothing duplicated, dropped or re-ordered in memory by the first write)
+    if snapshot() != before:
+        raise Violation('molecule-changed-by-writing', 'write_molecule_itp changed the molecule held in memory')
+    again = io.StringIO()
+    write_molecule_itp(mol, again, **kwargs)
+    if again.getvalue() != text:
+        raise Violation('second-write-differs', 'writing the same molecule a second time gives another text')
     facts = check_text(case, text)
     compared = check_against_read_itp(case, text, facts)
 
